@@ -37,6 +37,12 @@ Theorem C03_accepted_names_routed : forall i o r,
   auth i = Ok o -> a_routed i = Some r -> nth 1 (a_args i) [] = r.
 Proof. exact accepted_names_routed. Qed.
 Print Assumptions C03_accepted_names_routed.
+(* the check as it was (the payload's name only) did not have this property: a request signed for chaincode "c" reaches
+   chaincode "v" in a proposal whose payload names "c" - accepted then, refused now *)
+Theorem C03_payload_name_only_refuted :
+  exists i o r, a_routed i = Some r /\ nth 1 (a_args i) [] <> r /\ auth (without_routed i) = Ok o /\ forall o', auth i <> Ok o'.
+Proof. exact payload_name_only_refuted. Qed.
+Print Assumptions C03_payload_name_only_refuted.
 
 (* (4) REFUTED as stated in full: the signed bytes are a plain concatenation, so moving bytes
        across the boundary of two neighbouring arguments keeps every signature valid.  This
